@@ -19,7 +19,7 @@ pub fn plan() -> Plan {
         meta: Meta {
             property: "C07",
             level: "exploration",
-            rule: "four monitors on histories that mix data operations, every lifecycle/maintenance call, restarts with external damage (index removal, blob truncated mid-record / in its header, flipped record-header byte, zero-length blob, foreign garbage blob file => quarantines) and injected I/O failures (failed/short blob write, failed sync, failed create): (1) byte snapshots of every *.blob in the work dir and in corrupted/ after every step: the previous content must be a prefix of the current one, a file that left the work dir must sit byte-identical in corrupted/, quarantined files never change or vanish; (2) I/O tap: every write to a blob lands at or beyond the previous end of stored bytes, no positional rewrite / truncate / remove of a blob, a blob is renamed only into corrupted/ and never over an existing file, no create() of a blob that already holds bytes; (3) every created blob uses an id never carried by a file in the directory (incl. quarantined); (4) with the worker quiescent, the tap window of a full query pass (read, contains, read_all*, read_with, filters, counters) contains no write/create/truncate/rename/remove. Non-trivial = history with a quarantine, an injected fault or >=2 blobs; distinct = hash(history, damage plan).",
+            rule: "four monitors on histories that mix data operations, every lifecycle/maintenance call, restarts with external damage (index removal, blob truncated mid-record / in its header, flipped record-header byte, zero-length blob, foreign garbage blob file => quarantines) and injected I/O failures (failed/short blob write, failed sync, failed create): (1) byte snapshots of every *.blob in the work dir and in corrupted/ after every step: the previous content must be a prefix of the current one, a file that left the work dir must sit byte-identical in corrupted/, quarantined files never change or vanish; (2) I/O tap: every write to a blob lands at or beyond the previous end of stored bytes, no positional rewrite / truncate / remove of a blob, a blob is renamed only into corrupted/ and never over an existing file, no create() of a blob that already holds bytes; (3) every created blob uses an id never carried by a file in the directory (incl. quarantined); (2b) the same write-offset rule on a concurrent scenario (6-24 writer tasks with 40 B..300 KB values on one fresh or reopened blob, one write delayed by a failpoint); (4) with the worker quiescent, the tap window of a full query pass (read, contains, read_all*, read_with, filters, counters) contains no write/create/truncate/rename/remove. Non-trivial = history with a quarantine, an injected fault or >=2 blobs; distinct = hash(history, damage plan).",
             assumptions: vec!["snapshots are taken after a worker barrier (no in-flight I/O)", "thorough tier adds a hook-independent strace view of the same rules (tools/strace_c07.py)", "verdict holds for the histories generated for this seed"],
         },
         shards: 16,
@@ -400,12 +400,85 @@ async fn run(l: &mut Loose<8>, ops: &[Op], rng: &mut Rng) -> Out {
     out
 }
 
+/// Concurrent writers (mixed sizes: in-place and background I/O paths) on one blob, one write delayed by a
+/// failpoint: the tap must never show a write that lands below the end of the bytes already stored in the file.
+async fn concurrent_scenario(dir: PathBuf, cfg: crate::drive::Cfg, seed: u64) -> Result<(u64, u64), (String, String)> {
+    use bytes::Bytes;
+    use pearl::{ArrayKey, BlobRecordTimestamp, Storage};
+    let mut rng = Rng::new(seed);
+    let mut s: Storage<ArrayKey<8>> = crate::drive::builder_for(&cfg, &dir).build().map_err(|e| ("build".to_string(), format!("{:#}", e)))?;
+    s.init().await.map_err(|e| ("init-failed-on-empty-dir".to_string(), format!("{:#}", e)))?;
+    if rng.chance(1, 2) {
+        let _ = s.write(ArrayKey::<8>::from(crate::drive::key_bytes(1, 9999, 8)), Bytes::from(vec![1u8; 40]), BlobRecordTimestamp::new(1)).await;
+        s.close().await.map_err(|e| ("close".to_string(), format!("{:#}", e)))?;
+        s = crate::drive::builder_for(&cfg, &dir).build().map_err(|e| ("build".to_string(), format!("{:#}", e)))?;
+        s.init().await.map_err(|e| ("init".to_string(), format!("{:#}", e)))?;
+    }
+    let mut trace = Trace::new(false, true);
+    trace.corrupted_dir = Some(dir.join("corrupted"));
+    trace.seed_dir(&dir);
+    tap::arm(&dir, false, false);
+    tap::set_faults(&dir, vec![Fault { kinds: vec![Kind::Write], suffix: ".blob".into(), nth: rng.range(0, 20), sticky: false, action: Action::Delay(rng.range(5, 60)) }]);
+    let s = std::sync::Arc::new(s);
+    let tasks = rng.range(6, 24);
+    let mut hs = Vec::new();
+    for t in 0..tasks {
+        let s = s.clone();
+        let mut r = Rng::new(crate::rng::mix(seed, t));
+        hs.push(tokio::spawn(async move {
+            for i in 0..r.range(3, 8) {
+                let size = *r.pick(&[40usize, 60, 5000, 100_000, 300_000]);
+                let key = ArrayKey::<8>::from(crate::drive::key_bytes(7, (t * 100 + i) as u16, 8));
+                let _ = s.write(&key, Bytes::from(crate::drive::value_bytes(t * 1000 + i + 1, size as u32)), BlobRecordTimestamp::new(i)).await;
+                if r.chance(1, 4) {
+                    tokio::task::yield_now().await;
+                }
+            }
+        }));
+    }
+    for h in hs {
+        let _ = h.await;
+    }
+    s.verif_barrier(true).await;
+    let ev = tap::disarm(&dir);
+    trace.feed(&ev);
+    let writes = trace.writes_seen;
+    let s = std::sync::Arc::try_unwrap(s).map_err(|_| ("harness".to_string(), "storage still shared".to_string()))?;
+    s.close().await.map_err(|e| ("close".to_string(), format!("{:#}", e)))?;
+    if let Some(v) = trace.violations.first() {
+        return Err((format!("concurrent/tap/{}", v.rule.trim_start_matches("c07/")), v.detail.clone()));
+    }
+    Ok((writes, tasks))
+}
+
 pub fn shard(ctx: &Ctx) -> Shard {
     let mut sh = Shard::default();
     let mut rng = Rng::new(ctx.shard_seed());
     let p = profile();
     let mut n = 0u64;
     while ctx.time_left() {
+        if n % 12 == 11 {
+            let mut cfg = random_cfg(&mut rng, 4, 0, Some(true));
+            cfg.keylen = 8;
+            let seed = rng.next();
+            let dir = new_dir("c07c-");
+            let r = block_on_catch(cfg.mt, concurrent_scenario(dir.clone(), cfg.clone(), seed));
+            rm_dir(&dir);
+            n += 1;
+            sh.evaluations += 1;
+            sh.add("concurrent_scenarios", 1);
+            sh.nontrivial.insert(seed);
+            let replay = json!({"check": "c07-concurrent", "cfg": cfg.to_json(), "seed": seed});
+            match r {
+                Ok(Ok((w, t))) => {
+                    sh.add("concurrent_blob_writes_checked", w);
+                    sh.add("concurrent_writer_tasks", t);
+                }
+                Ok(Err((sig, d))) => sh.violation(&ctx.known, "C07", ctx.seed, &format!("C07/{}", sig), &d, replay),
+                Err(p) => sh.violation(&ctx.known, "C07", ctx.seed, "C07/concurrent/panic", &p, replay),
+            }
+            continue;
+        }
         let mut cfg = random_cfg(&mut rng, p.n_keys, p.n_meta, Some(true));
         cfg.keylen = 8;
         cfg.validate_data = rng.chance(1, 2);
